@@ -580,6 +580,10 @@ class QW(Semiring):
     def __init__(self, x):
         self.score = Fraction(x)
 
+    @classmethod
+    def chart(cls, *args, **kwargs):
+        return CHART_FACTORY[0](cls, *args, **kwargs)
+
     def __add__(s, o):
         if not isinstance(o, QW):
             return NotImplemented
